@@ -759,3 +759,44 @@ _run_c16 = run
 def run(ctx, R):
     _run_c16(ctx, R)
     r166(ctx, R)
+
+
+def r167(ctx, R):
+    """oslo.policy looks a deprecated rule up *by name* in the policy file
+    and, when the operator has an entry under that name, lets it replace the
+    new rule's check.  A deprecated name that is also the name of a rule
+    still registered makes an override of that one rule rewire every rule
+    carrying the deprecation (overriding the documented rule of an operation
+    would no longer be what grants exactly that operation): the names of
+    deprecated rules and the names of registered rules are disjoint."""
+    prog = ctx.prog
+    registered = set()
+    deprecated = {}
+    every = [('placement.policies.base', r) for r in prog.const(
+        'placement.policies.base', 'rules') if isinstance(r, CallRec)]
+    every += policy_rules(ctx)
+    for modname, r in every:
+        registered.add(_rule_field(r, 'name', 0))
+        d = r.kwargs.get('deprecated_rule')
+        if isinstance(d, CallRec):
+            deprecated.setdefault(_rule_field(d, 'name', 0), []).append(
+                '%s:%s' % (modname.rsplit('.', 1)[1],
+                           _rule_field(r, 'name', 0)))
+        elif d is not None:
+            deprecated.setdefault(repr(d), []).append(modname)
+    n = 0
+    for name, users in sorted(deprecated.items(), key=lambda x: str(x[0])):
+        n += 1
+        R.ob('R16.7', 'deprecated-name:%s' % name,
+             isinstance(name, str) and name not in registered,
+             'the name of a deprecated rule is not the name of a registered '
+             'rule', 'carried by %s' % users[:4])
+    R.count('R16.7', n, 1)
+
+
+_run_c16b = run
+
+
+def run(ctx, R):
+    _run_c16b(ctx, R)
+    r167(ctx, R)
